@@ -21,10 +21,13 @@ class _Reg(dict):
     """Registry; names of the form rand:<seed>:<index> are generated on demand (vlib/randforms.py)."""
 
     def __missing__(self, name):
-        if name.startswith("rand:"):
+        if name.startswith("rand:") or name.startswith("randc:"):
             from . import randforms
 
-            return dict(name=name, build=lambda n=name: randforms.build(n), tags={"rand"}, itypes=("cell", "exterior_facet", "interior_facet"))
+            d = dict(name=name, build=lambda n=name: randforms.build(n), tags={"rand"}, itypes=("cell", "exterior_facet", "interior_facet"))
+            if name.startswith("randc:"):
+                d["scalar"] = "complex128"
+            return d
         raise KeyError(name)
 
 
